@@ -66,6 +66,7 @@ pub fn translate(repo: &Path, out: &mut Out) {
                 ("default_on_not_found", "(default_on_not_found {0})"),
                 ("remove_dir_recursively", "(rdr {0})"),
             ],
+            mmethods: vec![],
             display: vec![],
         };
         let mut g = String::from("From LV Require Import Base FS LayerShared ImpPrims ImpTypes.\nOpen Scope N_scope.\n\n");
